@@ -20,6 +20,9 @@ Field conventions of `enc` (all decimal integers; `-1` = "no information" code 0
   tss   ES silsup alttype <sel alt ft> <qnh, 0.1 mb> hst hdg nacp nicb sil ms ap vnav ah adsr app tcas lnav
   surv  <df 4|5|20|21> fs dr um <q|g|z|s> <altitude ft | squawk> addr [ <mb kind> <mb fields…> ]
         mb kinds: id <callsign|->, vi …, tt …, hs …, pos tc ss saf <q|g|z> alt t f lat lon
+  air   0 vs cc sl ri <q|g|z> <altitude ft> addr            (DF 0, short air-air surveillance)
+  air   16 vs sl ri <q|g|z> <altitude ft> addr <mv, 14 hex digits>   (DF 16, long air-air surveillance)
+  allcall ca aa ic                                          (DF 11; ic = interrogator code overlaid on the parity)
 -/
 namespace Rs1090.Driver.C03
 open Rs1090 Rs1090.Model Rs1090.Driver Rs1090.Spec Rs1090.Spec.Encode
@@ -118,7 +121,23 @@ def payload? : String → List String → Option (List Field)
 
 def esKinds : List String := ["pos", "surf", "ident", "velg", "vela", "stat", "tss"]
 
+/-- 13-bit AC field (altitude kinds only) -/
+def ac13? (k v : String) : Option Nat := if k == "s" then none else code13? k v
+
 def encode? : List String → Option (List Nat)
+  | ["air", "0", vs, cc, sl, ri, ck, cv, addr] => do
+    let [vs, cc, sl, ri, addr] ← nats? [vs, cc, sl, ri, addr] | none
+    let code ← ac13? ck cv
+    pure (buildAir0 vs cc sl ri code addr)
+  | ["air", "16", vs, sl, ri, ck, cv, addr, mv] => do
+    let [vs, sl, ri, addr] ← nats? [vs, sl, ri, addr] | none
+    let code ← ac13? ck cv
+    let bs ← parseHex mv
+    if bs.length != 7 then none
+    pure (buildAir16 vs sl ri code addr (bs.map fun b => (8, b)))
+  | ["allcall", ca, aa, ic] => do
+    let [ca, aa, ic] ← nats? [ca, aa, ic] | none
+    pure (buildAllCall ca aa ic)
   | "surv" :: df :: fs :: dr :: um :: ck :: cv :: addr :: rest => do
     let [df, fs, dr, um, addr] ← nats? [df, fs, dr, um, addr] | none
     let code ← code13? ck cv
